@@ -30,7 +30,10 @@ func checkSkipNode(id string, w []byte, a *ref.PDA, used *rjson.Buffer) (bad str
 			return "reference!=json.Valid", true, fmt.Sprint(jv), fmt.Sprint(rv)
 		}
 		bufs := []*rjson.Buffer{nil, {}, used}
-		names := []string{"nil", "fresh", "used"}
+		names := []string{"nil", "fresh", "used", "giant"}
+		if len(w) > 5000 {
+			bufs = append(bufs, giantBuffer())
+		}
 		for i, b := range bufs {
 			if v := rjson.Valid(w, b); v != rv {
 				return "Valid/" + names[i], false, fmt.Sprint(rv), fmt.Sprint(v)
@@ -44,7 +47,10 @@ func checkSkipNode(id string, w []byte, a *ref.PDA, used *rjson.Buffer) (bad str
 		return "reference!=json.Decoder", true, okStr(sok, send), okStr(rok, rend)
 	}
 	bufs := []*rjson.Buffer{nil, {}, used}
-	names := []string{"nil", "fresh", "used"}
+	names := []string{"nil", "fresh", "used", "giant"}
+	if len(w) > 5000 {
+		bufs = append(bufs, giantBuffer())
+	}
 	for i, b := range bufs {
 		p, err := rjson.SkipValue(w, b)
 		if (err == nil) != rok || (rok && p != rend) {
@@ -75,75 +81,38 @@ func skipFamily(r *eng.Run, id string) {
 	K := r.Pick(1, 2)
 	maxStates := r.Pick(200000, 3000000)
 	used := usedBuffer()
-	validated := 0
-	oracleFaults := 0
 	entry := "Valid"
 	if id == "C02" {
 		entry = "SkipValue"
 	}
-	visit := func(w []byte) (string, bool) {
-		a := ref.Run(w)
-		var cfg string
-		var implAlive bool
-		orig := append([]byte(nil), w...)
-		pan := guard(func() {
-			cfg, implAlive = hooked(func() {
-				if id == "C01" {
-					rjson.Valid(w, nil)
-				} else {
-					rjson.SkipValue(w, nil)
-				}
-			})
-			bad, of, exp, got := checkSkipNode(id, w, a, used)
-			if of {
-				oracleFaults++
-				r.Note("ORACLE-DISAGREEMENT %s on %q: std=%s ref=%s", bad, w, exp, got)
-				return
+	sp := e1Spec{
+		entry: entry,
+		probe: func(w []byte) {
+			if id == "C01" {
+				rjson.Valid(w, nil)
+			} else {
+				rjson.SkipValue(w, nil)
 			}
-			validated++
-			if bad != "" {
-				r.Violation(eng.Replay{Engine: "pfx", Entry: entry, Sig: bad + "/" + shortSig(w), InputB64: orig, Expected: exp, Got: got})
-			}
-		})
-		if pan != "" {
-			r.Violation(eng.Replay{Engine: "pfx", Entry: entry, Sig: "panic/" + shortSig(w), InputB64: orig, Expected: "returns normally", Got: "panic: " + pan})
-			used = usedBuffer()
-		}
-		if !bytes.Equal(orig, w) {
-			r.Violation(eng.Replay{Engine: "pfx", Entry: entry, Sig: "input-modified/" + shortSig(orig), InputB64: orig, Expected: "input unchanged", Got: fmt.Sprintf("%q", w)})
-			copy(w, orig)
-		}
-		key := cfg + "#" + a.Key() + "#" + eng.ClassSuffix(w, K)
-		expand := (a.Alive() || implAlive) && a.Depth() <= D
-		if len(w) > 40 {
-			expand = false
-		}
-		return key, expand
+		},
+		check: func(w []byte, a *ref.PDA) (string, bool, string, string) { return checkSkipNode(id, w, a, used) },
+		reset: func() { used = usedBuffer() },
 	}
-	st := eng.PfxBFS(r, nil, visit, maxStates)
-	if st.Capped {
-		r.Inexhaustive(fmt.Sprintf("state cap %d reached", maxStates))
-	}
-	r.Set("states", st.States)
-	r.Set("transitions", st.Transitions)
-	r.Set("traces_validated_against_impl", validated)
-	r.Set("max_input_len", st.MaxLen)
-	r.Set("nesting_bound_D", D)
-	r.Set("class_suffix_k", K)
-	r.Set("oracle_disagreements", oracleFaults)
-	if oracleFaults > 0 {
-		r.Inexhaustive("reference model disagrees with encoding/json on some inputs (oracle fault, not a violation)")
-	}
+	res := runE1(r, sp, D, K, maxStates)
+	e1Evidence(r, D, K, res)
 	coverageReport(r, "skipValue")
 
 	deep := deepFamily(r, id, used)
 	r.Set("deep_family_runs", deep)
-	r.Set("evaluations", st.Transitions+deep)
-	r.Set("distinct_nontrivial", st.States)
-	r.Set("rule", "E1: BFS over (machine configuration at end of input, reference automaton state, class of last k bytes); every expanded node extended by all 256 bytes; each node run on the real code with nil/fresh/used Buffer and compared with the reference PDA and encoding/json. distinct_nontrivial = distinct expanded (alive) product states. Deep family: opener patterns at depth 9998..10002 x follow bytes x completions")
+	r.Add("evaluations", deep)
+	r.Set("rule", e1Rule+" Deep family: periodic opener patterns at depth 9998..10002 x follow bytes x completions x {nil, fresh, used, giant pre-grown} buffers.")
 	r.Sample(map[string]interface{}{"kind": "pfx-node", "input": `[1,{"a":-0.5e+1`, "note": "every such reachable configuration is followed by each of the 256 byte values"})
+	for i, l := range res.st.Loops {
+		if i%97 == int(r.Seed%97) && len(r.Samples) < 8 {
+			r.Sample(map[string]interface{}{"kind": "pump", "prefix": string(l.W), "byte": fmt.Sprintf("%q", l.B)})
+		}
+	}
 	r.Assume("nesting inside the BFS is bounded by D; deeper stacks are covered only by the periodic deep family")
-	r.Assume("digit runs / whitespace runs are saturated in the reference key (3 / 2); class-suffix k guards implicit state in hand-written scanners")
+	r.Assume("digit runs / whitespace runs are saturated in the reference key (3 / 2); longer runs are covered by the pumping pass up to its length bound; class-suffix k guards implicit state in hand-written scanners")
 }
 
 // deepFamily pins the depth limit: periodic opener patterns repeated to depth d in
